@@ -148,9 +148,12 @@ JOBS.update({
               J("util", "rel", 30000, 800000, only="C10"), J("util", "san", 8000, 200000, only="C10"),
               J("events", "rel", 30000, 800000, only="C10"), J("events", "san", 8000, 200000, only="C10"),
               J("hheap", "san", 10000, 300000, only="C10"), J("coro", "san", 10000, 300000, only="C10"),
+              J("procs", "rel", 320, 8000, cfg="mix=all,faults=2", only="C10", valgrind=True), J("util", "rel", 160, 4000, only="C10", valgrind=True),
+              J("events", "rel", 160, 4000, only="C10", valgrind=True), J("hheap", "rel", 160, 4000, only="C10", valgrind=True),
               J("mempool", "san", 2000, 60000, only="C10"), J("rng", "san", 2000, 60000, only="C10"), J("experiment", "san", 800, 20000, only="C10")],
         wall_quick=58, wall_thorough=1500,
         assumptions=["validity standard: the preconditions documented in include/*.h (where the header is silent, the call is valid)",
                      "UBSan alignment/null/object-size checks are off (one deliberate misaligned store in cmi_coroutine_context_init; the offsetof-via-null idiom in cmi_slist.h)",
+                     "a slice of each generator also runs under valgrind memcheck on the release build (uninitialised-value use, which ASan cannot see)",
                      "floating-point traps inside processes are judged on the gcc build only (clang raises a spurious invalid-operation exception in double->uint64 conversions)"]),
 })
